@@ -78,7 +78,7 @@ LEVEL_TEXT = (
     "refused every data method.  Crash points are enumerated, histories are searched: not a proof."
 )
 RULE = (
-    "case = 1-4 write transactions (writer() or writer(replacement=True), 0-12 operations out of "
+    "case = 1-4 (thorough: 1-6) write transactions (writer() or writer(replacement=True), 0-12 operations out of "
     "add/replace/delete/delete_exact/update_serial/get/get_node/name_exists/iterate_names/"
     "iterate_rdatasets/changed in every documented argument form, owner spelled as relative or "
     "absolute Name or str, with case flips; ending commit/rollback/with-exit/exception; about half "
@@ -1125,31 +1125,49 @@ def histories(draw, max_txns, max_ops):
 
 
 def parts(tier):
-    max_ops = 12
+    quick = {
+        "abort-with-prior-writes": 400,
+        "last-record-deleted-then-recreated": 80,
+        "cname-other-data": 150,
+        "absolute-owner-in-relativized-zone": 400,
+        "singleton-replaced": 60,
+        "ttl-merged": 200,
+        "serial-updated": 100,
+        "serial-skipped-zero": 5,
+        "serial-wrapped": 2,
+        "outcome:DeleteNotExact": 200,
+        "outcome:ValueError": 80,
+        "outcome:KeyError": 100,
+        "outcome:TypeError": 30,
+        "soa-other-spelling": 10,
+        "delete-form:rrset": 100,
+        "delete-form:type": 100,
+        "delete-form:type_covers": 100,
+        "delete-form:rdataset": 100,
+        "delete-form:rdata": 100,
+        "ending:commit": 300,
+        "ending:rollback": 80,
+        "ending:with": 150,
+        "ending:raise": 80,
+        "ending:with_commit": 60,
+        "ending:with_rollback": 60,
+        "reader-sweep": 200,
+        "ended-sweep": 1000,
+        "veto-fired": 400,
+        "crash-points>=10": 300,
+        "replacement": 80,
+        "excluded:D10": 80,
+        "excluded:D11": 1000,
+        "__nontrivial__": 400,
+    }
     return [
         Part(
             "histories",
             run,
-            strategy=histories(4, max_ops),
+            strategy=histories(4 if tier == "quick" else 6, 12),
             n={"quick": 1600, "thorough": 16000},
+            require={"quick": quick, "thorough": {k: 5 * v for k, v in quick.items()}},
             shards={"quick": 16, "thorough": 16},
-            require={
-                "abort-with-prior-writes": 100,
-                "last-record-deleted-then-recreated": 30,
-                "cname-other-data": 30,
-                "absolute-owner-in-relativized-zone": 100,
-                "singleton-replaced": 20,
-                "ttl-merged": 30,
-                "serial-updated": 20,
-                "outcome:DeleteNotExact": 30,
-                "outcome:ValueError": 20,
-                "outcome:KeyError": 10,
-                "reader-sweep": 50,
-                "ended-sweep": 200,
-                "crash-points>=10": 100,
-                "replacement": 20,
-                "__nontrivial__": 100,
-            },
             case_timeout_s=60.0,
         )
     ]
